@@ -74,6 +74,11 @@ func init() {
 		Monitors: []Monitor{monitorBloom("redis")}, OpName: bloomOpName,
 		Nontrivial: func(r *RunResult) bool { return countOps(r, blInsert) >= 2 },
 		Rule: "as bloom-mem, against the Redis-backed filter on miniredis", Quick: 150, Thorough: 2500})
+	machineByID[10] = func() Machine { return &topkRedis{} }
+	registry["C04"] = append(registry["C04"], Suite{Name: "topk-redis", NewMachine: func() Machine { return &topkRedis{} }, Gen: genC04,
+		Monitors: []Monitor{monitorTopK("redis")}, OpName: topkOpName,
+		Nontrivial: func(r *RunResult) bool { return countOps(r, tkInsert) >= 4 },
+		Rule: "as topk-mem, against the Redis-backed Top-K on miniredis", Quick: 120, Thorough: 2500})
 	registry["C05"] = []Suite{
 		{Name: "hll-mem", NewMachine: func() Machine { return &withCodec{genericMachine: &hllMem{}} }, Gen: genC05,
 			Monitors: []Monitor{monitorHLL("mem", "C05")}, OpName: hllOpName,
